@@ -238,10 +238,14 @@ def run(pid, tier, seed, a, t0):
     # ---- Layer B: lemmas
     lemma_results = []
     jobs = []
+    lemma_cover = []
     for ln, lem in LEMMAS.items():
         if pid in lem.tags:
             for ob in lem.obligations():
                 jobs.append((ob.name, prelude.build_query(ob.hyps, ob.goal), prelude.build_query(ob.hyps, ob.goal, opaque=True)))
+                if ob.kind == 'lemma' and ob.hyps:
+                    # vacuity guard: induction hypothesis + lemma instances + definition instances must be consistent
+                    lemma_cover.append((ob.name, prelude.build_query(ob.hyps, t.FALSE), None))
     if jobs:
         ts = time.time()
         solved = solve.solve_many(jobs, timeout=timeout, tier=tier)
@@ -251,6 +255,10 @@ def run(pid, tier, seed, a, t0):
             r.text = text
             lemma_results.append(r)
     all_results += lemma_results
+    if lemma_cover:
+        cov = solve.solve_many(lemma_cover, timeout=3, tier='cover')
+        cover_info['cover_checks'] = cover_info.get('cover_checks', 0) + len(lemma_cover)
+        cover_info['vacuous'] = cover_info.get('vacuous', []) + [k for k, res in cov.items() if res.verdict == 'unsat']
     # ---- tables / native enumerations / bounded stand-ins supplied by the property
     extra = P.get('extra')
     extras = extra(src, tier, seed) if extra else {'tables': [], 'bounded': []}
